@@ -1,10 +1,11 @@
-// Package c08: harness for property C08 (stub until built).
+// Package c08: harness for property C08 (DA collateral conservation).
+// The driver, the projection and the generators are shared with C07 in package dacommon.
 package c08
 
-import "fmt"
+import "verifharness/dacommon"
 
-// Run generates n cases from seed, runs them on the real application and writes
-// cases_*.v and stats.json into outDir.
+// Run generates n cases from seed (after the fixed corpus), runs them on the real
+// application and writes cases_*.v and stats.json into outDir.
 func Run(seed int64, n int, outDir string) error {
-	return fmt.Errorf("c08: harness not built yet")
+	return dacommon.Run(dacommon.C08, seed, n, outDir)
 }
